@@ -58,6 +58,8 @@ def shape_rows(shape, i, r):
         return (bytes([i % 251 + 1]) * (1 + i % 6), "t%d" % i, 2000 + i)
     if shape == "bool_text":                      # first column 0/1: serial types 8 and 9, both of size 0
         return (i % 2, "flag-%d" % i)
+    if shape == "flags":                          # every column 0/1 (serial types 8/9): the record body is empty
+        return tuple(((i * 37) >> k) & 1 for k in range(6))
     if shape == "nullable":
         return (None if i % 3 == 0 else 100 + i, "n%d" % i, None if i % 4 == 0 else "z" * (i % 9))
     raise KeyError(shape)
@@ -75,6 +77,7 @@ DECLS = {
     "blob_text_int": "a BLOB, b TEXT, c INTEGER",
     "bool_text": "a INTEGER, b TEXT",
     "nullable": "a INTEGER, b TEXT, c TEXT",
+    "flags": "a INTEGER, b INTEGER, c INTEGER, d INTEGER, e INTEGER, f INTEGER",
 }
 SHAPES = list(DECLS)
 POSITIONS = ["first", "middle", "last", "two_apart", "run", "all"]
@@ -383,6 +386,9 @@ FORCED = [
     ("int_text_real", 512, 160, "run", "journal", 1),
     ("int_text_real", 1024, 160, "all", "journal", 1),
     ("alias_text", 512, 160, "run", "journal", 2),
+    # a record without body bytes: the freeblock holds nothing but the serial types after the first
+    ("flags", 1024, 12, "two_apart", "db", 0),
+    ("flags", 512, 40, "middle", "wal", 0),
 ]
 
 
